@@ -16,12 +16,22 @@ var _ containers.JSONDeserializer = (*List[int])(nil)
 
 // ToJSON outputs the JSON representation of list's elements.
 func (list *List[T]) ToJSON() ([]byte, error) {
+	if len(list.elements) == 0 {
+		// a list that was never filled has a nil slice, which would be encoded as null
+		return []byte("[]"), nil
+	}
 	return json.Marshal(list.elements)
 }
 
 // FromJSON populates list's elements from the input JSON representation.
 func (list *List[T]) FromJSON(data []byte) error {
-	err := json.Unmarshal(data, &list.elements)
+	// decode into a temporary: decoding into the live slice would keep prior elements
+	// and leave a half-decoded list behind on error
+	var elements []T
+	err := json.Unmarshal(data, &elements)
+	if err == nil {
+		list.elements = elements
+	}
 	return err
 }
 
